@@ -10,10 +10,17 @@ use crate::runner::{
 };
 
 pub mod adapters;
+pub mod decode;
+pub mod fieldvalue;
+#[cfg(feature = "hooks")]
+pub mod filters;
 pub mod frontend;
 pub mod ir;
+#[cfg(feature = "hooks")]
+pub mod lattice;
 pub mod misc;
 pub mod schema;
+pub mod serial;
 pub mod world;
 
 pub struct Report {
